@@ -116,8 +116,10 @@ Section Leaf.
   Proof.
     unfold G_update_y_X, gen_update_y_X, gen_set_cutoff, mem_upd, L_set_y, set_cut.
     destruct y as [|p y]; [cbn; reflexivity|].
-    (* whatever way the source writes "the batch is not empty" *)
-    match goal with |- (if ?c then _ else _) = _ => replace c with true by (cbn [length]; lia) end.
+    (* whichever way the source writes "the batch is (not) empty": decide the test, the impossible
+       branch goes by arithmetic *)
+    match goal with |- context [if ?c then _ else _] =>
+      let E := fresh "E" in destruct c eqn:E; try (exfalso; cbn [length] in E; lia) end.
     reflexivity.
   Qed.
 
@@ -456,16 +458,25 @@ Section Composite.
   Lemma own_with_own_cut (s : stT) c : s <> SBad _ _ _ _ _ _ -> cut (own' (with_own' (b_set_cut c) s)) = c.
   Proof. destruct s; intros H; try reflexivity. contradiction. Qed.
 
-  (* update_predict on a composite: the cutoff that is detached, moved and restored is the
+  (* _predict_moving_cutoff on a composite: the cutoff that is detached, moved and restored is the
      composite's OWN; each window goes through the composite's update and predict *)
-  Theorem bridge_comp_update_predict s y cv up :
-    KG_update_predict s y cv up = k_update_predict' s y cv up.
+  Definition KG_predict_moving_cutoff :=
+    gen_predict_moving_cutoff stT K_get_y K_set_y K_get_cutoff K_set_cutoff K_get_fh K_set_fh_field
+                              K_window_length KG__ups.
+
+  Lemma bridge_comp_predict_moving_cutoff s y c up :
+    KG_predict_moving_cutoff s y c up =
+    match cv_windows c (Z.of_nat (length y)) with
+    | Err => (s, BErr)
+    | Ok ws =>
+        let '(s1, out) :=
+          fold_left (k_mc_step' (cv_fh c) up) (map (take y) ws)
+                    (with_own' (b_set_cut (zfirst (times y) - 1)) s, []) in
+        (with_own' (b_set_cut (cut (own' s))) s1, BPreds out)
+    end.
   Proof.
-    unfold KG_update_predict, gen_update_predict, k_update_predict, k_default_cv, K_get_fh. cbv zeta.
-    set (c := match cv with Some c => c | None => _ end).
-    replace (match cv with Some v_cv => Some v_cv | None => _ end) with (Some c)
-      by (destruct cv; reflexivity).
-    unfold gen_predict_moving_cutoff, gen_set_cutoff, K_set_cutoff, K_get_cutoff. cbv zeta.
+    unfold KG_predict_moving_cutoff, gen_predict_moving_cutoff, gen_set_cutoff, K_set_cutoff,
+      K_get_cutoff. cbv zeta.
     destruct (cv_windows c (Z.of_nat (length y))) as [ws|].
     - pose proof (bridge_comp_mc_fold y (cv_fh c) up ws
                     (with_own' (b_set_cut (zfirst (times y) + - (1))) s, [], [], true)
@@ -476,6 +487,15 @@ Section Composite.
       destruct (fold_left (k_mc_step' (cv_fh c) up) _ _) as [s1' out].
       destruct R as (-> & -> & -> & _). reflexivity.
     - rewrite with_own_cut_twice, with_own_cut_id. reflexivity.
+  Qed.
+
+  (* update_predict on a composite (whichever way the source writes "cv or the default splitter") *)
+  Theorem bridge_comp_update_predict s y cv up :
+    KG_update_predict s y cv up = k_update_predict' s y cv up.
+  Proof.
+    unfold KG_update_predict, gen_update_predict, k_update_predict, k_default_cv, K_get_fh.
+    destruct cv as [c0|]; cbv beta iota zeta; fold KG_predict_moving_cutoff;
+      rewrite bridge_comp_predict_moving_cutoff; reflexivity.
   Qed.
 
   Theorem site_comp_methods_are_the_model (s : stT) :
